@@ -6,6 +6,21 @@ CHECKS = {
  'C01': dict(level='exploration', ref='3/C01', technique='runtime monitor on every PcfgQueue.next() (online order/probability assertions) over generated tie-heavy rulesets + fresh-process determinism replay',
    text='Held on every POP of every generated ruleset run to exhaustion: reported probabilities non-increasing, equal (within (n+3) ulp) to the exact rational product of the loaded factors, and the POP sequence identical in fresh interpreters with other hash seeds. Exploration, not proof: reach comes from generators aimed at exact float ties, underflow, repeated types and duplicate structures.',
    note='Trusts: the independent on-disk parser/enumerator in vlib/oracles.py; well-formed rulesets only; languages <= 20000 pre-terminals.'),
+ 'C02': dict(level='exploration', ref='3/C02', technique='recorded POP history vs itertools.product reference language (multiset equality) + frontier invariant asserted on the live heap after every pop',
+   text='Held on every generated ruleset run to exhaustion: the multiset of popped pre-terminals equals the independently enumerated language (one per derivation, duplicate structures counted separately) and after every pop no node is lost, orphaned, duplicated or both emitted and queued. Non-trivial cases are languages in which a node has several parents of exactly equal probability; the distinct tie patterns seen are reported.',
+   note='Trusts vlib/oracles.py; languages <= 20000 nodes; frontier invariant only where base structures are distinguishable and <= 1500 nodes.'),
+ 'C04': dict(level='exploration', ref='3/C04', technique='per-POP monitor on create_guesses (lines written + return value) vs reference expansion; Markov pre-terminals vs brute-force OMEN enumeration',
+   text='Held for every pre-terminal of every generated ruleset: the lines the real create_guesses writes are, as a multiset, the product of the chosen groups with masks applied to the preceding alpha word; its return value equals the number of lines; loaded groups equal the on-disk lines carrying that probability; a Markov pre-terminal yields exactly the strings of its one OMEN level.',
+   note='Trusts vlib/oracles.py (Language.expand, OmenModel); well-formed rulesets; OMEN levels <= 100000 strings.'),
+ 'C08': dict(level='fault_enumeration', ref='3/C08', technique='crash-point enumeration: every cut point k through the real restore code + scripted quit/--load histories through the real main(), keypress thread and .sav file; offline history checker',
+   text='For every explored ruleset ALL interruption points k are enumerated through the real restore path, and sampled 1-4 cycle histories run through the real main() with q delivered at chosen POP/GUESS events. The checker demands: nothing of the uninterrupted run is lost, every run is non-increasing, nothing above the saved probability, repeats only at exactly a saved probability, UUID mismatch refused.',
+   note='Trusts the session driver (scripted input() stand-in, no-op sleep) not to change the logic under test; rulesets without Markov structure (C15 covers those); quit during the final pre-terminal excluded (see DESIGN).'),
+ 'C10': dict(level='exploration', ref='3/C10', technique='real MarkovCracker pulled to exhaustion per level under three cache histories vs brute-force enumeration of the same on-disk model',
+   text='Held on every (model, level) explored: Counter(generated) == Counter(brute force), then None; identical sequences with a fresh cache, a cache shared over shuffled/repeated levels, and a cache pre-filled by interrupted generations (cache hits are counted to show history mattered).',
+   note='Trusts OmenModel.all_levels; well-formed models; <= 150000 strings per model.'),
+ 'C15': dict(level='fault_enumeration', ref='3/C15', technique='crash-point enumeration inside OMEN levels through the real main()/keypress thread/.sav/.omn files, multi-cycle histories, offline stream checker',
+   text='For every Markov level of every explored ruleset and every position j (all j for small levels, boundaries + sample beyond) q is delivered right after the j-th guess; the resumed run must continue with exactly the owed remainder (sequence equality, no skip/repeat), also when interrupted again inside the remainder, and later cycles must not replay it; whole-history accounting as in C08. The recorded finding F-C15b (final pre-terminal) is reported as KNOWN-FINDING.',
+   note='Trusts the session driver; level contents anchored to the brute-force OMEN model; levels of 2-300 strings.'),
 }
 PENDING = {}
 def main():
